@@ -48,37 +48,16 @@ def _parts(s, ESC=ESC):
 def extract(ix, te, ce, cls, chk, ESC=ESC):
     v = Variant(cls.qualname)
     parts = lambda s_: _parts(s_, ESC)
+    ESC_FOR[0] = ESC
     ev = cls.find_method('_escape_value')
     gt = cls.find_method('_get_translations')
     gr = cls.find_method('_get_escape_char_regex')
     if ev is None or gt is None or gr is None:
         raise AnalysisError('%s: escape machinery (_escape_value/_get_translations/_get_escape_char_regex) not found' % cls.qualname)
     v.funcs = (ev, gt, gr)
-    # ---- translations
-    for r in [n for n in own_nodes(gt.node) if isinstance(n, ast.Return)]:
-        if not isinstance(r.value, ast.Tuple):
-            raise AnalysisError('%s: _get_translations returns an unrecognised shape' % cls.qualname)
-        table = {}
-        for el in r.value.elts:
-            if not (isinstance(el, ast.Tuple) and len(el.elts) == 2 and isinstance(el.elts[0], ast.Subscript) and
-                    isinstance(el.elts[0].slice, ast.Constant)):
-                raise AnalysisError('%s: translation entry `%s` not recognised' % (cls.qualname, norm(el)[:50]))
-            role = el.elts[0].slice.value
-            try:
-                word = ce.eval(el.elts[1], gt.module, None, env={'escape_char': ESC})
-            except NotConstant as e:
-                raise AnalysisError('%s: translation for %s is not constant (%s)' % (cls.qualname, role, e))
-            if role in table:
-                chk.info('C06: %s lists role %s twice in one translation table' % (cls.qualname, role))
-            table[role] = parts(word)
-        ctxs = []
-        p = r
-        while p is not None and p is not gt.node:
-            par = getattr(p, '_parent', None)
-            if isinstance(par, ast.ExceptHandler):
-                ctxs.append('except ' + norm(par.type))
-            p = par
-        v.tables.append((ctxs[0] if ctxs else 'main', table))
+    # ---- translations (small abstract evaluation of _get_translations: literals, locals, +, super(), .get(role, default),
+    #      try/except KeyError)
+    v.tables = eval_translations(ix, te, ce, cls, gt, parts, chk)
     if not v.tables:
         raise AnalysisError('%s: no translation table found' % cls.qualname)
     # ---- regex
@@ -189,6 +168,139 @@ def extract(ix, te, ce, cls, chk, ESC=ESC):
     return v
 
 
+class _Unsupported(Exception):
+    pass
+
+
+def eval_translations(ix, te, ce, cls, gt, parts, chk, depth=0):
+    """-> [(label, {key: word})]; key = role name, or ('lit', char) for a literal character that is always translated"""
+    if depth > 4:
+        raise AnalysisError('%s: _get_translations recursion too deep' % cls.qualname)
+    ecp = gt.call_params()[0] if gt.call_params() else 'encoding_chars'
+
+    def key_of(e, env):
+        if isinstance(e, ast.Name) and e.id in env and env[e.id][0] == 'key':
+            return env[e.id][1]
+        if isinstance(e, ast.Subscript) and norm(e.value) == ecp and isinstance(e.slice, ast.Constant):
+            return [('role', e.slice.value)]
+        if isinstance(e, ast.Call) and norm(e.func) == ecp + '.get' and e.args and isinstance(e.args[0], ast.Constant):
+            if len(e.args) > 1:      # present / absent: the default character is translated although it is no delimiter
+                dflt = e.args[1].value if isinstance(e.args[1], ast.Constant) and isinstance(e.args[1].value, str) \
+                    else '<%s>' % norm(e.args[1])[:40]
+                return [('role', e.args[0].value), ('lit', dflt)]
+            return [('role', e.args[0].value)]
+        if isinstance(e, ast.Constant) and isinstance(e.value, str):
+            return [('lit', e.value)]
+        raise _Unsupported('key `%s`' % norm(e)[:40])
+
+    def word_of(e, env):
+        try:
+            local = {k: v[1] for k, v in env.items() if v[0] == 'const'}
+            local.setdefault('escape_char', ESC_FOR[0])
+            return parts(ce.eval(e, gt.module, None, env=local))
+        except NotConstant as ex:
+            raise _Unsupported('sequence `%s` (%s)' % (norm(e)[:40], ex))
+
+    def tables_of(e, env):
+        """-> list of alternatives, each a list of (keyalts, word)"""
+        if isinstance(e, ast.Tuple):
+            alt = []
+            for el in e.elts:
+                if isinstance(el, ast.Tuple) and len(el.elts) == 2:
+                    alt.append((key_of(el.elts[0], env), word_of(el.elts[1], env)))
+                else:
+                    raise _Unsupported('entry `%s`' % norm(el)[:40])
+            return [alt]
+        if isinstance(e, ast.Name) and e.id in env and env[e.id][0] == 'tables':
+            return env[e.id][1]
+        if isinstance(e, ast.BinOp) and isinstance(e.op, ast.Add):
+            return [a + b for a in tables_of(e.left, env) for b in tables_of(e.right, env)]
+        if isinstance(e, ast.Call) and isinstance(e.func, ast.Attribute) and e.func.attr == '_get_translations':
+            # super(...)._get_translations(ec) / Base._get_translations(self, ec)
+            owner = gt.cls
+            nxt = None
+            for c_ in owner.mro[1:]:
+                if '_get_translations' in c_.methods:
+                    nxt = c_.methods['_get_translations']
+                    break
+            if nxt is None:
+                raise _Unsupported('no parent _get_translations')
+            sub = eval_translations(ix, te, ce, nxt.cls, nxt, parts, chk, depth + 1)
+            return [[([k] if isinstance(k, tuple) else [('role', k)], w) for k, w in t.items()] for _, t in sub]
+        if isinstance(e, ast.Call) and isinstance(e.func, ast.Name) and e.func.id == 'tuple' and e.args:
+            return tables_of(e.args[0], env)
+        raise _Unsupported('expression `%s`' % norm(e)[:50])
+
+    results = []
+
+    def run_block(stmts, env, label):
+        for st in stmts:
+            if isinstance(st, ast.Expr) and isinstance(st.value, ast.Constant):
+                continue
+            if isinstance(st, ast.Assign) and len(st.targets) == 1 and isinstance(st.targets[0], ast.Name):
+                name = st.targets[0].id
+                if norm(st.value) == "%s['ESCAPE']" % ecp:
+                    env[name] = ('const', ESC_FOR[0])
+                    continue
+                try:
+                    env[name] = ('tables', tables_of(st.value, env))
+                    continue
+                except _Unsupported:
+                    pass
+                try:
+                    env[name] = ('key', key_of(st.value, env))
+                    continue
+                except _Unsupported:
+                    pass
+                try:
+                    env[name] = ('const', ce.eval(st.value, gt.module, None,
+                                                  env={k: v_[1] for k, v_ in env.items() if v_[0] == 'const'}))
+                    continue
+                except NotConstant:
+                    raise _Unsupported('assignment `%s`' % norm(st)[:50])
+            if isinstance(st, ast.Return):
+                for alt in tables_of(st.value, env):
+                    results.append((label, alt))
+                return True
+            if isinstance(st, ast.Try):
+                if run_block(st.body, dict(env), label):
+                    pass
+                for h in st.handlers:
+                    run_block(h.body, dict(env), 'except ' + (norm(h.type) if h.type is not None else ''))
+                return True
+            raise _Unsupported('statement `%s`' % norm(st)[:50])
+        return False
+    try:
+        run_block(gt.node.body, {}, 'main')
+    except _Unsupported as ex:
+        raise AnalysisError('%s: _get_translations has an unsupported shape: %s' % (cls.qualname, ex))
+    out = []
+    for label, alt in results:
+        # expand optional roles: present / absent (the absent case translates the literal default character)
+        opts = [k for k, w in alt if len(k) > 1]
+        choices = [[]]
+        for k, w in alt:
+            if len(k) == 1:
+                choices = [c_ + [(k[0], w)] for c_ in choices]
+            else:
+                choices = [c_ + [(kk, w)] for c_ in choices for kk in k]
+        for ch in choices:
+            table = {}
+            absent = []
+            for k, w in ch:
+                if k[0] == 'role':
+                    table[k[1]] = w
+                else:
+                    table[('lit', k[1])] = w
+                    absent.append(k[1])
+            lab = label if not absent else '%s, optional role absent: literal %r translated' % (label, ''.join(absent))
+            out.append((lab, table))
+    return out
+
+
+ESC_FOR = [ESC]
+
+
 def model(v, table, sep_roles):
     """reduced symbolic alphabet + transduction for one translation table"""
     lb_letters = set().union(*[s for s in v.behind]) - {E} if v.behind else set()
@@ -266,6 +378,35 @@ def render(word):
     return ''.join(RENDER.get(x, x) for x in word)
 
 
+def transparency(chk, c, rule):
+    """only the transparency clause (used by C01): no textual datatype variant rewrites a character that is not a delimiter role"""
+    ix, te = c.index, c.te
+    ce = ConstEval(ix, te)
+    chk.rule(rule, 'textual leaves: the escape function rewrites delimiter roles and the escape character only; any other character of '
+                   'a parsed value is re-emitted as it is (all versions, all delimiter sets)')
+    base = ix.cls('base_datatypes.TextualDataType')
+    seen = set()
+    n = 0
+    for ver, table in sorted(c.base_datatypes.items()):
+        for key, ci in sorted(table.items()):
+            if base not in ci.mro:
+                continue
+            gt = ci.find_method('_get_translations')
+            if gt is None or gt.qualname in seen:
+                continue
+            seen.add(gt.qualname)
+            for cname_, ch_ in ESC_CLASSES[:1]:
+                ESC_FOR[0] = ch_
+                tabs = eval_translations(ix, te, ce, gt.cls, gt, lambda s_, ch_=ch_: _parts(s_, ch_), chk)
+            for label, t in tabs:
+                lits = sorted(k[1] for k in t if isinstance(k, tuple))
+                n += 1
+                chk.ob(rule, '%s [%s] translates delimiter roles only' % (gt.cls.qualname, label), not lits,
+                       'the literal character(s) %s are rewritten although they are not delimiters of the set in use: parse -> encode '
+                       'changes such text' % lits, gt.loc, key='%s|%s|%s' % (rule, gt.cls.qualname, ','.join(lits)))
+    chk.floor('translation tables examined', n, 3)
+
+
 def run(chk):
     c = ctxmod.get()
     ix, te = c.index, c.te
@@ -276,6 +417,7 @@ def run(chk):
     chk.rule('C06-P2', 'well-formedness: in every output each escape character belongs to an escape sequence e<letter>e')
     chk.rule('C06-P3', 'idempotence: escaping an output again changes nothing')
     chk.rule('C06-P4', 'letter agreement: both guard classes contain every letter the function emits, E, and the highlight letters H N')
+    chk.rule('C06-P5', 'transparency: only delimiter roles of the set in use are translated; any other character is emitted as it is')
     chk.rule('C06-D', 'SubComponent.to_er7 hands its encoding characters to the datatype object')
     chk.assume('delimiters are pairwise distinct characters and none of them is an escape letter or the escape character '
                '(the property\'s own "valid set of distinct punctuation delimiters")')
@@ -340,14 +482,21 @@ def run(chk):
                 chk.fail('C06-X', '%s: replacement of the re.sub' % vname, v.repl_error, where, key='C06-X|%s|repl-template' % vname)
             chk.ok('C06-X', '%s extracted (%d binding(s))' % (vname, len(variants[k])),
                    'tables %s; look-behind %s; look-ahead %s; replacement %s' % (
-                       [(l, sorted(t)) for l, t in v.tables], [''.join(sorted(s)) for s in v.behind],
+                       [(l, sorted(map(str, t))) for l, t in v.tables], [''.join(sorted(s)) for s in v.behind],
                        [''.join(sorted(s)) for s in v.ahead], ''.join(v.repl)), where, key='C06-X|%s' % vname)
             chk.ob('C06-X', '%s: all replaces happen before the re.sub and the result is returned' % vname,
                    v.order_ok and v.returns_value and not v.extra,
                    'order ok %s, returns value %s, other rewrites %s' % (v.order_ok, v.returns_value, v.extra), where,
                    key='C06-X|%s|order' % vname)
-            for label, table in v.tables:
+            for label, table0 in v.tables:
+                lits = {k[1]: w for k, w in table0.items() if isinstance(k, tuple)}
+                table = {k: w for k, w in table0.items() if not isinstance(k, tuple)}
                 tname = '%s[%s]' % (vname, 'with ' + '+'.join(sorted(table)) if label == 'main' else label)
+                chk.ob('C06-P5', '%s: text without delimiters and escape characters is emitted unchanged' % tname, not lits,
+                       'the literal character(s) %s are rewritten to %s although they are not delimiters of the set in use: a value '
+                       'read from a parsed message does not re-encode to the text it came from' % (
+                           sorted(lits), [''.join(RENDER.get(x, x) for x in w) for w in lits.values()]), where,
+                       key='C06-P5|%s|%s' % (vname, ','.join(sorted(lits))))
                 roles_needed = set(sep_roles)
                 if 'TRUNCATION' in table or (label == 'main' and any(
                         b.split('.')[0] >= 'v2_7' for b in variants[k])):
